@@ -30,7 +30,8 @@ claimed = {
         " Also: installed recognisers (R2.3), recogniser sees everything received (R2.5), acceptance of every well-formed reply (R2.6)."
         " Also R2.7 (dispatchers never return nil,nil) and the framing-mix rule on constructors."
         " R2.6 also on the dispatchers (no well-formed size refused before the per-function parser); R2.8 shared-state rule for parsers, recognisers and re-encoding."
-        " R2.4 whole-input clause; R2.9 the client parses exactly what it received."),
+        " R2.4 whole-input clause; R2.9 the client parses exactly what it received."
+        " R2.3 also on every reply dispatcher: an exception-length frame with bit 7 set comes back as the typed exception (or the CRC failure), never another error."),
   note=ENGINE_NOTE + " Premises are printed in evidence (protocol id 0, MBAP length = len-6, function byte = case constant, legal FC5 value, fixed-size replies have their length, FC17 within one ADU).",
   ref="DESIGN.md §3 C02"),
  "C03": dict(
@@ -42,7 +43,8 @@ claimed = {
         " Also: CRC range for arbitrary struct contents (R3.1), RTU clients install CRC-verifying functions (R3.3)."
         " R3.4: checksum constants 0xFFFF / 0xA001 or an equal 256-entry table (constants only)."
         " R3.5: shared-state rule for CRC16 and its callers."
-        " R3.0 on the whole argument (no clamped view)."),
+        " R3.0 on the whole argument (no clamped view)."
+        " R3.4 also: the routine returns 0xFFFF for the empty input. R3.6: outside package packet nothing writes into an encoded frame."),
   note=ENGINE_NOTE + " CRC16 is an uninterpreted function in R3.1/R3.2.",
   ref="DESIGN.md §3 C03"),
  "C04": dict(
@@ -54,7 +56,8 @@ claimed = {
         "demand (R4.3). Float value identity is not decided."
         " R4.5: no access path writes the payload or keeps decoder state."
         " R4.6: AsRegisters hands the whole payload and the request start address to NewRegisters."
-        " R4.5 also rooted at the builder's extraction loop."),
+        " R4.5 also rooted at the builder's extraction loop."
+        " R4.7: sub-register accessors (bit/byte results) do not read the configured byte order."),
   note=ENGINE_NOTE + " Registers values are assumed to come from NewRegisters (fields unexported; checked that no other function writes them).",
   ref="DESIGN.md §3 C04"),
  "C05": dict(
@@ -78,7 +81,7 @@ claimed = {
         "the greedy batching for all field lists is NOT decided."
         " Also R6.4 (= R5.7) and R6.5 (the eight read-request encoders put unit/start/quantity on the wire as specified)."
         " R6.6 (= R5.1): slot size equals the registers the type occupies."
-        " R6.8 = R5.12; R6.9 the sort comparator is the ascending order of the slot address for all values."),
+        " R6.8 = R5.12 (incl. no element pointer kept across an append to its slice); R6.9 the sort comparator is the ascending order of the slot address for all values and the sorted slice is the slice the batching loop walks."),
   note=ENGINE_NOTE,
   ref="DESIGN.md §3 C06"),
  "C07": dict(
@@ -90,8 +93,9 @@ claimed = {
         " Also R7.4 installed recognisers claim only exception frames, R7.5 positive read timeout from the right configuration field, R7.6 parsers accept and decode every well-formed reply, R7.7 oversize limit = ADU size."
         " R7.5 includes guard purity."
         " R7.6 includes dispatcher acceptance of every legal size."
-        " R7.9 never neither reply nor error."),
-  note=ENGINE_NOTE + " io.Reader contract and errors.Is as an uninterpreted predicate are assumed.",
+        " R7.9 never neither reply nor error."
+        " R7.10 (= R8.7): the client reads from the dialer's own connection."),
+  note=ENGINE_NOTE + " io.Reader contract assumed; errors.Is is identity for error values without Unwrap/Is methods and uninterpreted otherwise.",
   ref="DESIGN.md §3 C07"),
  "C08": dict(
   technique="abstract interpretation + CFG rules (select on every cycle, allow-listed calls, error classification by value origin)",
@@ -109,7 +113,8 @@ claimed = {
         "limits equal the specification's (R9.1); dispatchers agree (R9.4). FC1/FC2 parser limit 125 is a known finding."
         " R9.5 (= R1.5): header for any struct contents."
         " R9.6: shared-state rule for request parsing/encoding."
-        " R9.8 the verifying request entry point accepts iff trailer = CRC of the whole input before it."),
+        " R9.8 the verifying request entry point accepts iff trailer = CRC of the whole input before it."
+        " Known findings of R9.3 are keyed by the refused quantity range, not by the refusing expression."),
   note=ENGINE_NOTE,
   ref="DESIGN.md §3 C09"),
  "C10": dict(
@@ -118,7 +123,8 @@ claimed = {
         "parsing entry points is proven safe against len (not cap), and every return path pairs a non-nil error with a nil "
         "value. This is a sound-by-construction static argument over all byte strings, which no finite test set gives; it "
         "is not a mechanised proof (the analyser itself is trusted), hence level 'other'."
-        " Includes bounds obligations for package-level tables and array fields."),
+        " Includes bounds obligations for package-level tables and array fields."
+        " R10.3 treats an interface holding a nil pointer as a nil value; obligations of a helper are kept per call context when one fails."),
   note=ENGINE_NOTE + " Not covered: panics inside standard-library callees other than encoding/binary accessors; behaviour on 32-bit int.",
   ref="DESIGN.md §3 C10"),
  "C11": dict(
@@ -128,7 +134,8 @@ claimed = {
         "three wrappers. The write/read-back clause follows from those for every pattern. The byte-order defect of isBitSet is "
         "a known finding (pinned by existing tests)."
         " Also R11.4 wrappers only forward, R11.5 recogniser and parser of one framing, R11.6 replies are fresh copies."
-        " R11.7 (= R1.1 for FC15 encoders)."),
+        " R11.7 (= R1.1 for FC15 encoders)."
+        " R11.8 (= R5.2): extraction asks the reply itself, with (request start, field address)."),
   note=ENGINE_NOTE,
   ref="DESIGN.md §3 C11"),
  "C12": dict(
@@ -174,7 +181,8 @@ claimed = {
         " Also: no read bytes dropped (R15.4), parsed requests do not alias the input (R15.7)."
         " R15.3 also forbids a return before the step and value receivers."
         " R15.2 also: the connection is given up only on the classifier's verdict."
-        " R15.8 = R16.1."),
+        " R15.8 = R16.1."
+        " R15.9: no method of the assembler outside the reassembly path touches its buffer."),
   note=ENGINE_NOTE + " bytes.Buffer contract is modelled, not analysed.",
   ref="DESIGN.md §3 C15"),
  "C16": dict(
@@ -185,7 +193,8 @@ claimed = {
         "goroutines (R16.5), complete-frame consumption (R16.0). Handler-built responses are outside."
         " R16.6: no write to package-level state on the per-connection path."
         " R16.7 (= R15.3)."
-        " R16.9 a failed reply write ends the connection."),
+        " R16.9 a failed reply write ends the connection."
+        " R16.5 also: nothing in the deferred recovery can itself panic."),
   note=ENGINE_NOTE,
   ref="DESIGN.md §3 C16"),
  "C17": dict(
@@ -216,7 +225,8 @@ claimed = {
         "iteration and the frame handed to the parser, are evaluated once per event on every path, and cannot influence the "
         "outcome (R19.1-R19.4). User hook bodies are outside."
         " Also: hook and parser only on success (R19.3), chunk accounting (R19.5), constructors pass Hooks through (R19.6)."
-        " R19.6 includes guard purity."),
+        " R19.6 includes guard purity."
+        " R19.7 (= R8.7): what the after-read hook is shown comes from the dialer's own connection."),
   note=ENGINE_NOTE,
   ref="DESIGN.md §3 C19"),
 }
